@@ -24,6 +24,14 @@ var substTable = map[string]string{
 	"golang.org/x/crypto/curve25519.ScalarBaseMult": "ScalarBaseMult",
 	"golang.org/x/crypto/curve25519.ScalarMult":     "ScalarMult",
 	"strconv.ParseUint":                             "ParseUint",
+	"github.com/tadglines/go-pkgs/crypto/srp.NewSRP":                                  "SRPNew",
+	"(*github.com/tadglines/go-pkgs/crypto/srp.SRP).ComputeVerifier":                  "SRPComputeVerifier",
+	"(*github.com/tadglines/go-pkgs/crypto/srp.SRP).NewServerSession":                 "SRPNewServerSession",
+	"(*github.com/tadglines/go-pkgs/crypto/srp.ServerSession).GetB":                   "SRPGetB",
+	"(*github.com/tadglines/go-pkgs/crypto/srp.ServerSession).ComputeKey":             "SRPComputeKey",
+	"(*github.com/tadglines/go-pkgs/crypto/srp.ServerSession).VerifyClientAuthenticator": "SRPVerifyClientAuthenticator",
+	"(*github.com/tadglines/go-pkgs/crypto/srp.ServerSession).ComputeAuthenticator":   "SRPComputeAuthenticator",
+	"net/http.Error":              "HTTPError",
 	"crypto/rand.Read":                              "RandRead",
 }
 
